@@ -396,3 +396,29 @@ mod tests {
         assert_parse_partial_data(" \"foo😊\":blah", &[string("foo😊")], 10, ":blah");
     }
 }
+
+#[cfg(feature = "verif-hooks")]
+impl DataIterator {
+    pub(crate) fn verif_snapshot(&self) -> String {
+        format!(
+            "{}:{}/{}",
+            self.chunk_index,
+            self.chunk_item_index,
+            self.chunks
+                .iter()
+                .map(|c| crate::verif_hooks::enc_loc(&c.location))
+                .collect::<Vec<_>>()
+                .join(",")
+        )
+    }
+}
+
+#[cfg(feature = "verif-hooks")]
+impl DataElement {
+    pub(crate) fn verif_encode(&self) -> String {
+        match self {
+            DataElement::String(s) => format!("s{}", crate::verif_hooks::hex(s.as_bytes())),
+            DataElement::Number(n) => format!("n{}", crate::verif_hooks::enc_f64(*n)),
+        }
+    }
+}
